@@ -57,20 +57,26 @@ pub(crate) fn extract_doc_comments(attrs: &[Attribute]) -> Vec<String> {
         if attr.path().is_ident("doc") {
             // Try different parsing methods
             if let Ok(lit_str) = attr.parse_args::<syn::LitStr>() {
-                comments.push(lit_str.value());
+                comments.push(doc_text(&lit_str.value()));
             } else if let syn::Meta::NameValue(meta_name_value) = &attr.meta {
                 if let syn::Expr::Lit(syn::ExprLit {
                     lit: syn::Lit::Str(lit_str),
                     ..
                 }) = &meta_name_value.value
                 {
-                    comments.push(lit_str.value());
+                    comments.push(doc_text(&lit_str.value()));
                 }
             }
         }
     }
 
     comments
+}
+
+/// The text of a doc attribute: `/// text` reaches us as `" text"`, the blank is not part of it.
+#[cfg(feature = "introspection")]
+fn doc_text(doc: &str) -> String {
+    doc.strip_prefix(' ').unwrap_or(doc).to_string()
 }
 
 /// Recursively removes all lifetimes from a type.
